@@ -267,8 +267,10 @@ def answer (line : String) : String :=
           let obs := words _impl
           let hb := ((obs.find? (fun x => x.startsWith "hbend=")).map (fun x => (x.drop 6).toString)).bind (·.toInt?)
           let hbTxt := match hb with
-            | some h => if decide ((to : Int) ≤ h + 3 ∧ h ≤ (to : Int) + 150) then toString h
-                        else s!"{h}(expected-{to}..{to + 150})"
+            -- measured from the request's ARRIVAL at the coordinator (the deadline was set before it was written): a
+            -- loaded machine shortens the lower end, wake-ups lengthen the upper; "no deadline" shows as -2 (> 2 s)
+            | some h => if decide ((to : Int) ≤ 4 * h ∧ h ≤ (to : Int) + 250) then toString h
+                        else s!"{h}(expected-{to / 4}..{to + 250})"
             | none => "?"
           let m := s!"joins={j} syncs={s} gen=ok hbend={hbTxt} leave=m1"
           s!"model={m} holds={if m == _impl then 1 else 0}"
